@@ -230,6 +230,7 @@ func expectDecoded(t, term string) string {
 
 func runConfig(ctx *RunCtx) *Result {
 	res := NewResult()
+	configStartupCheck(res)
 	p := NewPRNG(ctx.Seed)
 	defaults := map[string]cfgDoc{
 		"jobs":       {"defaultTTLSecondsAfterFinished": "(DInt 3600%Z)", "defaultPendingTimeoutSeconds": "(DInt 900%Z)", "forceDeleteTaskTimeoutSeconds": "(DInt 900%Z)"},
